@@ -16,4 +16,12 @@ CHECKS = {
              "(completeness, position binding, coinbase only at 0, malformed rejected); every case is then executed on the real "
              "function with random concrete hashes and the verdicts are validated against the specification by TLC.",
         note=TRUSTED + "; hash collisions excluded by assumption."),
+    "C01": dict(
+        level="model_checking",
+        technique="TLA+ spec (Relayer.tla QuorumOk) + TLC exhaustive case table + replay as real BLS-signed transactions into the real app + TLC trace validation",
+        text="TLC enumerates every bitmap x signer-subset x corruption case for groups of 0..N voters and checks the quorum theorems; "
+             "every case is executed as a real transaction (real BLS aggregate over the real sign-doc) by FinalizeBlock of the "
+             "unmodified application, and TLC validates the per-transaction verdicts and the full projected relayer state (plus a "
+             "digest of the bridge store for 'changes no state at all') against the specification.",
+        note=TRUSTED + "; BLS soundness assumed."),
 }
